@@ -22,6 +22,7 @@ def check(run):
                                                                     "refusal_changes_nothing", "every_other_entry_unchanged",
                                                                     "entry_filed_under_canonical_keys"))
     verify.verify(run, c.E, c.contracts["meth:images.Images._add_1_1"], crosscheck=False)
+    verify.verify(run, c.E, c.contracts["gate:images.Images.deserialize:any"], crosscheck=False)
     # ... and for a variant listing ANY number of arches (witness rule; add() is the recorded callee contract)
     verify.verify(run, c.E, c.contracts["meth:images.Images._add_1_1:any"], crosscheck=False)
     verify.verify(run, c.E, c.contracts["meth:rpms.Rpms.deserialize_0_3"])
